@@ -1186,9 +1186,9 @@ Plan plan(const Ctx& c)
         p.countSweep = kCountSweep;
         p.kinds = kKindCases;
         p.empty = 4;
-        p.randomBatches = th ? 2000000 : 40000;
+        p.randomBatches = th ? 2000000 : 150000;
         p.histDet = kHistDetPairs + 3;  // all ordered pairs of canonical shapes + the three histories with aborted calls
-        p.histRandom = th ? 200000 : 4000;
+        p.histRandom = th ? 200000 : 12000;
     }
     else
     {
@@ -1196,7 +1196,7 @@ Plan plan(const Ctx& c)
         p.empty = 4;
         p.randomBatches = th ? 200000 : 5000;
         p.histDet = kHistDetSpecial + kHistDetPairs;
-        p.histRandom = th ? (c.prop == "C10" ? 1500000 : 200000) : (c.prop == "C10" ? 30000 : 4000);
+        p.histRandom = th ? (c.prop == "C10" ? 1500000 : 200000) : (c.prop == "C10" ? 60000 : 15000);
     }
     return p;
 }
